@@ -33,6 +33,18 @@ use s2n_quic_core::{
 };
 use vq_util::{json, mix, Rng, Summary, Violation};
 
+
+/// formats and records a trace line only when tracing is on (off under Miri unless --verbose:
+/// the witness of a Miri-mode history is regenerated natively with `--replay`)
+macro_rules! trace {
+    ($s:expr, $($arg:tt)*) => {
+        if $s.tracing {
+            let m = format!($($arg)*);
+            $s.log(m);
+        }
+    };
+}
+
 const MS: f64 = 1_000_000.0;
 const GRANULARITY_NS: f64 = MS;
 
@@ -133,13 +145,14 @@ struct Hist {
     after_pc: bool,
     st: Stats,
     verbose: bool,
+    tracing: bool,
     trace: Vec<String>,
     fail: Option<Fail>,
     ops: u64,
 }
 
 impl Hist {
-    fn new(mut rng: Rng, verbose: bool) -> Self {
+    fn new(mut rng: Rng, verbose: bool, tracing: bool) -> Self {
         let initial = match rng.below(4) {
             0 => Duration::from_millis(333),
             1 => Duration::from_micros(rng.range(1, 1000)),
@@ -181,6 +194,7 @@ impl Hist {
             after_pc: false,
             st,
             verbose,
+            tracing,
             trace: Vec::new(),
             fail: None,
             ops: 0,
@@ -310,18 +324,26 @@ impl Hist {
         let i_min = ns(self.est.min_rtt());
         let i_srtt = ns(self.est.smoothed_rtt());
         let i_var = ns(self.est.rttvar());
-        let desc = format!(
-            "sample={sample:?} ack_delay={ack_delay:?} confirmed={} space={space:?} prev(srtt={prev_srtt:?} var={prev_var:?} min={prev_min:?}) -> srtt={:?} var={:?} min={:?} latest={:?}",
+        let (confirmed, n_srtt, n_var, n_min, n_latest) = (
             self.confirmed,
             self.est.smoothed_rtt(),
             self.est.rttvar(),
             self.est.min_rtt(),
-            self.est.latest_rtt()
+            self.est.latest_rtt(),
         );
-        self.log(desc.clone());
+        // formatted lazily: only for the trace and for failure messages
+        let describe = move || {
+            format!(
+                "sample={sample:?} ack_delay={ack_delay:?} confirmed={confirmed} space={space:?} prev(srtt={prev_srtt:?} var={prev_var:?} min={prev_min:?}) -> srtt={n_srtt:?} var={n_var:?} min={n_min:?} latest={n_latest:?}"
+            )
+        };
+        if self.tracing {
+            let d = describe();
+            self.log(d);
+        }
 
         if i_latest != latest {
-            self.set_fail("latest_rtt", format!("latest_rtt != sample: {desc}"));
+            self.set_fail("latest_rtt", format!("latest_rtt != sample: {}", describe()));
             return;
         }
         let seeding = !self.m.has_sample || self.after_pc;
@@ -338,12 +360,12 @@ impl Hist {
         if i_min != want_min && i_min != alt_min {
             self.set_fail(
                 "min_rtt",
-                format!("min_rtt {i_min} ns, expected {want_min} ns: {desc}"),
+                format!("min_rtt {i_min} ns, expected {want_min} ns: {}", describe()),
             );
             return;
         }
         if i_min > latest {
-            self.set_fail("min_rtt_above_sample", format!("min_rtt > latest sample: {desc}"));
+            self.set_fail("min_rtt_above_sample", format!("min_rtt > latest sample: {}", describe()));
             return;
         }
         self.m.min = i_min;
@@ -444,7 +466,7 @@ impl Hist {
         let Some((cand, note)) = hit else {
             self.set_fail(
                 "update_not_rfc9002",
-                format!("no update rule permitted by RFC 9002 5.3/A.7 explains the new values within 8/4 ns: {desc}"),
+                format!("no update rule permitted by RFC 9002 5.3/A.7 explains the new values within 8/4 ns: {}", describe()),
             );
             return;
         };
@@ -504,8 +526,8 @@ impl Hist {
             self.set_fail(
                 "drift_from_transcription",
                 format!(
-                    "estimator (srtt {i_srtt} var {i_var}) drifted from the RFC transcription (srtt {:.1} var {:.1}): {desc}",
-                    self.m.srtt, self.m.rttvar
+                    "estimator (srtt {i_srtt} var {i_var}) drifted from the RFC transcription (srtt {:.1} var {:.1}): {}",
+                    self.m.srtt, self.m.rttvar, describe()
                 ),
             );
             return;
@@ -515,8 +537,8 @@ impl Hist {
             self.set_fail(
                 "smoothed_outside_sample_range",
                 format!(
-                    "smoothed_rtt {i_srtt} ns outside [{}, {}] of adjusted samples: {desc}",
-                    self.m.lo, self.m.hi
+                    "smoothed_rtt {i_srtt} ns outside [{}, {}] of adjusted samples: {}",
+                    self.m.lo, self.m.hi, describe()
                 ),
             );
             return;
@@ -598,7 +620,7 @@ impl Hist {
         self.est.on_persistent_congestion();
         self.after_pc = true;
         self.st.shape |= shape::PC;
-        self.log("on_persistent_congestion".into());
+        trace!(self, "on_persistent_congestion");
         // nothing observable may change until the next sample
         let (s, v, m) = (
             ns(self.est.smoothed_rtt()),
@@ -662,9 +684,9 @@ impl Hist {
         let thr_exact_ns = (1.125 * srtt.max(latest)).max(GRANULARITY_NS);
         let elapsed_ns = elapsed_us as f64 * 1000.0;
         let margin = elapsed_ns - thr_exact_ns; // >= 0: time threshold met
-        self.log(format!(
+        trace!(self, 
             "loss::detect gap={gap} elapsed={elapsed_us}us thr={thr:?} -> {out:?}"
-        ));
+        );
         match out {
             loss::Outcome::Lost => {
                 if gap >= 3 {
@@ -808,7 +830,7 @@ impl Hist {
             backoff *= 2;
             self.st.max_backoff = self.st.max_backoff.max(backoff);
         }
-        self.log(format!("pto chain space={space:?} expiries={expiries}"));
+        trace!(self, "pto chain space={space:?} expiries={expiries}");
     }
 
     fn step(&mut self) {
@@ -832,8 +854,8 @@ struct Outcome {
     ops: u64,
 }
 
-fn drive(rng: Rng, len: u64, verbose: bool) -> Outcome {
-    let mut h = Hist::new(rng, verbose);
+fn drive(rng: Rng, len: u64, verbose: bool, tracing: bool) -> Outcome {
+    let mut h = Hist::new(rng, verbose, tracing);
     while h.ops < len && h.fail.is_none() {
         h.step();
     }
@@ -861,8 +883,8 @@ pub fn run(p: &Params, sum: &mut Summary) {
         if p.verbose {
             eprintln!("history {index}: ops={len}");
         }
-        let verbose = p.verbose;
-        let res = guarded(move || drive(rng, len, verbose));
+        let (verbose, tracing) = (p.verbose, p.verbose || !cfg!(miri));
+        let res = guarded(move || drive(rng, len, verbose, tracing));
         sum.evaluations += 1;
         let replay = json!({"check": "rtt", "seed": p.seed, "history": index, "mode": p.mode(), "ops": len});
         match res {
@@ -938,7 +960,7 @@ pub fn run(p: &Params, sum: &mut Summary) {
         }
     }
     sum.count("operations", total_ops);
-    if total_ops == 0 && p.only.is_none() {
+    if total_ops == 0 && p.only.is_none() && sum.violations.is_empty() {
         sum.inconclusive.push("rtt: no operation was run".into());
     }
 }
